@@ -1331,12 +1331,13 @@ class Router:
             self._ls_retransmit, args=[sought_gn_addr]
         )
         timer.daemon = True
-        timer.start()
+        # Registered before it is started, so that its own expiry cannot be overtaken by this thread.
         with self._ls_lock:
             old = self._ls_timers.pop(sought_gn_addr, None)
             if old:
                 old.cancel()
             self._ls_timers[sought_gn_addr] = timer
+        timer.start()
 
     def _ls_retransmit(self, sought_gn_addr: GNAddress) -> None:
         """
@@ -1368,9 +1369,9 @@ class Router:
             self._ls_retransmit, args=[sought_gn_addr]
         )
         timer.daemon = True
-        timer.start()
         with self._ls_lock:
             self._ls_timers[sought_gn_addr] = timer
+        timer.start()
 
     def gn_data_indicate_ls_request(
         self, packet: bytes, common_header: CommonHeader, basic_header: BasicHeader
